@@ -198,6 +198,7 @@ func oracle(ctx *hx.Ctx, idx int, h *hist, steps []step, cl string) {
 		afterFlush  = map[uint64]bool{}
 		idOfIdx     = map[[2]int][]uint64{}
 		seqIdxKnown = true
+		firstIdx    = -1 << 30 // stream position of the first packet processed
 	)
 	bigB := h.unrel && B >= 32768
 	for i, p := range h.ops {
@@ -223,6 +224,7 @@ func oracle(ctx *hx.Ctx, idx int, h *hist, steps []step, cl string) {
 				if p.idx >= 0 {
 					maxIdx[p.epoch] = p.idx
 					arrivedIdx[[2]int{p.epoch, p.idx}] = true
+					firstIdx = p.idx
 				}
 				continue
 			}
@@ -243,7 +245,7 @@ func oracle(ctx *hx.Ctx, idx int, h *hist, steps []step, cl string) {
 					if p.idx > m {
 						maxIdx[p.epoch] = p.idx
 					}
-					if late > 0 && late < B && !arrivedIdx[key] && !p.tail {
+					if late > 0 && late < B && !arrivedIdx[key] && !p.tail && p.idx > firstIdx {
 						lateSmall[p.id] = [3]int{p.epoch, p.idx, late}
 						if skipped[key] {
 							afterFlush[p.id] = true
@@ -484,6 +486,11 @@ func (g *gen) perturb(start uint16, epoch, from, n, d int, lossPct, burstMax, du
 		dup bool
 	}
 	var items []item
+	if from == 0 {
+		// the first packet processed defines where the receiver's stream begins: keep it in place
+		g.pkt(start, 0, epoch, false, false)
+		from, n = 1, n-1
+	}
 	for i := 0; i < n; {
 		if lossPct > 0 && r.Intn(100) < lossPct {
 			i += r.Range(1, burstMax)
@@ -673,6 +680,15 @@ func evalHist(ctx *hx.Ctx, h *hist) {
 	oracle(ctx, idx, h, steps, cl)
 }
 
+// B = 32768 is evaluated by the oracle only: the list-based model needs O(B^2) steps per flush there.
+func evalBigB(ctx *hx.Ctx) {
+	h := corpusBigB()
+	_, steps, _ := runImpl(h)
+	ctx.Eval()
+	ctx.Kind("corpus B=32768 (oracle only)")
+	oracle(ctx, -1, h, steps, h.caseLine())
+}
+
 func replayLine(ctx *hx.Ctx, l string) {
 	v := hx.ParseLine(l)
 	if len(v) < 3 || v[0] != 1 {
@@ -718,7 +734,8 @@ func main() {
 	for _, s := range []uint16{0, 65533, 65531, 32766} {
 		evalHist(ctx, corpusF12(s))
 	}
-	evalHist(ctx, corpusBigB())
+	evalBigB(ctx)
+	evalHist(ctx, makeHist(r, hDisplacedLoss, 65000, 1024))
 
 	starts := []uint16{}
 	for s := 0; s <= 8; s++ {
@@ -730,13 +747,13 @@ func main() {
 	for i := 0; i < ctx.Budget(48, 64); i++ {
 		starts = append(starts, uint16(r.Intn(65536)))
 	}
-	per := ctx.Budget(4, 8)
+	per := ctx.Budget(6, 10)
 	for _, s := range starts {
 		for kind := 0; kind < nKinds; kind++ {
 			for k := 0; k < per; k++ {
 				bs := hx.Pick(r, bufSizes...)
 				if r.Intn(40) == 0 {
-					bs = hx.Pick(r, 0, 256, 1024, 4096)
+					bs = hx.Pick(r, 0, 0, 256, 512)
 				}
 				evalHist(ctx, makeHist(r, kind, s, bs))
 			}
@@ -749,6 +766,9 @@ func main() {
 				bs := hx.Pick(r, 1, 2, 4, 8, 16)
 				evalHist(ctx, makeHist(r, kind, uint16(s), bs))
 			}
+		}
+		for _, bs := range []int{2048, 4096} {
+			evalHist(ctx, makeHist(r, hDisplacedLoss, uint16(r.Intn(65536)), bs))
 		}
 		for i := 0; i < 20000; i++ {
 			evalHist(ctx, makeHist(r, r.Intn(nKinds), uint16(r.Intn(65536)), hx.Pick(r, bufSizes...)))
